@@ -340,7 +340,7 @@ def r11e(run):
         kws = {k.arg: k.value for k in ctor.keywords} if isinstance(ctor, ast.Call) else {}
         missing = [p for p in POLICY_ATTRS if not (isinstance(kws.get(p), ast.Constant) and kws[p].value == "throw")]
         run.check("R11e", f, f"stage `{var}` switches the exclude / preserve policies off", not missing,
-                  construct=f"union stage {var} keeps the caller's exclude/preserve policies",
+                  construct=f"union stage [{'+'.join(sorted(fl))}] keeps the caller's exclude/preserve policies",
                   message=f"the retry stage `{var}` raises {sorted(fl)} but leaves {missing} as the caller set them: an "
                           f"element that only fails because of the stage's stricter flags is excluded / preserved and the "
                           f"stage reports success",
